@@ -180,8 +180,10 @@ func c18Digest(w *World) []string {
 			w.c18Name(g.AuthorizationCode, jti), w.c18Name(g.JWKThumbprint, jti), w.c18Name(g.ClientCertThumbprint, jti))+w.c18DeepGrant(&g, jti))
 	}
 	for _, c := range w.c18Clients() {
-		out = append(out, fmt.Sprintf("client %s redirects=%q scopes=%q grants=%v resp=%v authn=%s jwks_uri=%s sector=%s sub=%s", w.c18ClientLabel(c.ID), c.RedirectURIs, c.ScopeIDs, c.GrantTypes, c.ResponseTypes,
-			c.TokenAuthnMethod, c.PublicJWKSURI, c.SectorIdentifierURI, c.SubIdentifierType))
+		out = append(out, fmt.Sprintf("client %s redirects=%q scopes=%q grants=%v resp=%v authn=%s/%s/%s jwks_uri=%s sector=%s sub=%s clear_secret=%v hashed_secret=%v inline_jwks=%v tls=%q",
+			w.c18ClientLabel(c.ID), c.RedirectURIs, c.ScopeIDs, c.GrantTypes, c.ResponseTypes,
+			c.TokenAuthnMethod, c.TokenIntrospectionAuthnMethod, c.TokenRevocationAuthnMethod, c.PublicJWKSURI, c.SectorIdentifierURI, c.SubIdentifierType,
+			c.Secret != "", c.HashedSecret != "", c.PublicJWKSURI == "" && len(c.PublicJWKS) > 0, c.TLSSubDistinguishedName+"|"+c.TLSSubAlternativeName+"|"+c.TLSSubAlternativeNameIp))
 	}
 	sort.Strings(out)
 	return out
@@ -235,6 +237,13 @@ type c18Trace struct {
 
 func c18Run(spec WorldSpec, ex c18Exec, ops []Op, extraTargets []string) c18Trace {
 	spec.Flavour, spec.FreshPer = ex.Flavour, ex.Fresh
+	if jwtbSpecHasGrant(spec) {
+		// NewWorld puts the package-level anonymous jwt-bearer client (a sync.Once in internal/token) back into
+		// its start-of-process state: worlds with that grant must not overlap (jwtb_anon.go); resetting the Once
+		// while another world's request is inside it kills the process
+		jwtbWorldMu.Lock()
+		defer jwtbWorldMu.Unlock()
+	}
 	w, err := NewWorld(spec)
 	if err != nil {
 		panic(err)
@@ -242,6 +251,9 @@ func c18Run(spec WorldSpec, ex c18Exec, ops []Op, extraTargets []string) c18Trac
 	w.extraTargets = append([]string(nil), extraTargets...)
 	if c18HasFlag(extraTargets, c18FlagClaims) {
 		c18EnableEmbedderClaims(w)
+	}
+	if c18HasFlag(extraTargets, c18FlagAuthn) {
+		c18EnableAuthn(w)
 	}
 	tr := c18Trace{Exec: ex}
 	for i, o := range ops {
@@ -252,6 +264,7 @@ func c18Run(spec WorldSpec, ex c18Exec, ops []Op, extraTargets []string) c18Trac
 			before = c18DeepSnapshot(w)
 		}
 		obs := c18ExecOp(w, o)
+		obs.Sub = w.c18ClientLabel(obs.Sub) // (the subject of a client_credentials token is the client id, random for registered clients)
 		wrote := ""
 		if ep != "" {
 			wrote = c18SnapshotDiff(before, c18DeepSnapshot(w))
@@ -774,6 +787,9 @@ func init() {
 		hs = append(hs, c18Corpus(ctx.R)...)
 		hs = append(hs, c18RemoteCorpus(ctx.R)...)
 		hs = append(hs, c18ReadOnlyCorpus(ctx.R)...)
+		hs = append(hs, c18AuthnCorpus(ctx.R, ctx.N(0, 1) == 1)...)
+		hs = append(hs, c18PopCorpus(ctx.R, ctx.N(0, 1) == 1)...)
+		hs = append(hs, c18FieldsCorpus(ctx.R)...)
 		n := ctx.N(128, 2000)
 		for k := 0; k < n; k++ {
 			hs = append(hs, c18Generate(ctx.R, k))
@@ -783,6 +799,9 @@ func init() {
 		}
 		for k := 0; k < ctx.N(48, 700); k++ {
 			hs = append(hs, c18GenerateReadOnly(ctx.R, k))
+		}
+		for k := 0; k < ctx.N(30, 450); k++ {
+			hs = append(hs, c18GeneratePop(ctx.R, k))
 		}
 		// the four executions of every history (independent worlds: in parallel)
 		res := make([]c18Result, len(hs))
@@ -891,7 +910,7 @@ func init() {
 		// the directed histories about state outside the storages, as they went (first execution)
 		var tour []map[string]any
 		for _, r := range res {
-			if !strings.HasPrefix(r.H.Note, "corpus:remote:") {
+			if !strings.HasPrefix(r.H.Note, "corpus:remote:") && !strings.HasPrefix(r.H.Note, "corpus:authn:") && !strings.HasPrefix(r.H.Note, "corpus:pop:") && !strings.HasPrefix(r.H.Note, "corpus:fields:") {
 				continue
 			}
 			var lines []string
@@ -911,7 +930,7 @@ func init() {
 		ctx.Meta.Distinct = len(seen)
 		ctx.Meta.Extra = map[string]any{"histories": len(hs), "executions_per_history": 4, "pairwise_trace_comparisons": compared,
 			"dcr_histories": dh, "cases_for_the_model": len(coqCases), "histories_compared_on_the_go_side_only": ctx.Meta.Dist["histories-compared-on-the-go-side-only"]}
-		ctx.Meta.Rule = "each history (corpus of the defects found + generator profiles code/refresh, PAR/sessions, CIBA, token life cycle; static or stored clients; sometimes a registration removed and restored in mid-history) is and, for state outside the storages, directed and generated histories whose clients authenticate with private_key_jwt and publish their keys at jwks_uri (static and stored), with world events between requests - key rotation, jwks_uri outage, new contents of sector_identifier_uri / of the request object hosted at request_uri, a failing CIBA notification endpoint, DCR of jwks_uri clients, the jwt-bearer grant with and without a client - is replayed under {copy, alias} x {one instance, fresh provider.New per request}; the four projected traces and the storage digests after every operation are compared pairwise; the transcript of an execution also holds the normalised claims of every JWT access token issued and every member of the introspection / userinfo answers; read-only requests (introspection, userinfo, TokenInfo helpers, discovery, jwks; directed blocks between the state changing steps of code / hybrid / CIBA flows with JWT and opaque tokens, and a generator dimension) must leave a deep snapshot of everything stored unchanged, under both storage flavours; each execution's trace is a case for the model (run / run_alias_trace); distinct by projected trace; non-trivial = at least one accepted and one refused operation"
+		ctx.Meta.Rule = "each history (corpus of the defects found + generator profiles code/refresh, PAR/sessions, CIBA, token life cycle; static or stored clients; sometimes a registration removed and restored in mid-history) is and, for state outside the storages, directed and generated histories whose clients authenticate with private_key_jwt and publish their keys at jwks_uri (static and stored), with world events between requests - key rotation, jwks_uri outage, new contents of sector_identifier_uri / of the request object hosted at request_uri, a failing CIBA notification endpoint, DCR of jwks_uri clients, the jwt-bearer grant with and without a client - is replayed under {copy, alias} x {one instance, fresh provider.New per request}; the four projected traces and the storage digests after every operation are compared pairwise; the transcript of an execution also holds the normalised claims of every JWT access token issued and every member of the introspection / userinfo answers; read-only requests (introspection, userinfo, TokenInfo helpers, discovery, jwks; directed blocks between the state changing steps of code / hybrid / CIBA flows with JWT and opaque tokens, and a generator dimension) must leave a deep snapshot of everything stored unchanged, under both storage flavours; directed histories for what the JSON document of a client and of a grant must carry: one registered client per authentication method (secret basic / post / jwt, private_key_jwt inline and jwks_uri, tls, self-signed tls, none, mixed per endpoint) authenticating at /token, /introspect, /revoke, /par with right, wrong and superseded credentials, re-registered and changing method; grants re-bound at refresh to another DPoP key / certificate and then asked about (introspection cnf, userinfo, TokenInfoFromRequest with both keys); life-time fields decided by Tick (code, session, access token, grant); each execution's trace is a case for the model (run / run_alias_trace); distinct by projected trace; non-trivial = at least one accepted and one refused operation"
 		for i := 0; i < len(res) && len(ctx.Meta.Samples) < 2; i += 9 {
 			var ops []string
 			for j, o := range res[i].H.Ops {
